@@ -315,6 +315,7 @@ type cell struct {
 	write   bool
 	in      ssa.Instruction
 	idxVals []ssa.Value // the values used as indices (per-iteration copies resolved to what was stored in them)
+	idxCells []*ssa.Alloc // the variables used as indices
 }
 
 // indexValues lists, outermost first, the index operands of an address; a load
@@ -391,6 +392,9 @@ func cellPath(addr ssa.Value) (string, []*ssa.Alloc) {
 func idx(v ssa.Value, cells *[]*ssa.Alloc) string {
 	if c, ok := v.(*ssa.Const); ok && c.Value != nil {
 		return c.Value.ExactString()
+	}
+	if p, ok := v.(*ssa.Parameter); ok {
+		return "@param:" + p.Parent().String() + ":" + p.Name()
 	}
 	if u, ok := v.(*ssa.UnOp); ok && u.Op == token.MUL {
 		if a, ok := resolveCell(u.X).(*ssa.Alloc); ok {
